@@ -476,6 +476,23 @@ where
                 }
                 r
             }
+            ["burn", s, nbytes] => {
+                // produce and discard `nbytes` bytes in 1 MiB fills (very long histories: counters of every width wrap)
+                let (s, mut left) = match (num(s), nbytes.parse::<u64>().ok()) { (Some(s), Some(n)) => (s, n), _ => return "bad-op".into() };
+                self.ensure(s);
+                let mut buf = vec![0u8; 1 << 20];
+                let mut acc = 0u8;
+                while left > 0 {
+                    let k = left.min(1 << 20) as usize;
+                    match &mut self.slots[s] {
+                        Slot::Jit(..) => return "unsupported".into(),
+                        other => { let ok: bool = with_gen!(other, g => { g.fill_bytes(&mut buf[..k]); true }, else false); if !ok { return "unsupported".into(); } }
+                    }
+                    acc ^= buf[k - 1];
+                    left -= k as u64;
+                }
+                format!("ok {:02x}", acc)
+            }
             ["tappend", t, readings] => {
                 // more readings for an existing scripted timer (a generator may still hold it): lets a history continue after
                 // the timer ran dry in the middle of a call (the closure unwound) — property C16 / C14
